@@ -10,7 +10,6 @@ import (
 	"testing"
 	"time"
 
-	sdk "github.com/cosmos/cosmos-sdk/types"
 	"pgregory.net/rapid"
 )
 
@@ -20,7 +19,8 @@ import (
 // hash and the deterministic part of every tx result must agree after every block.
 
 var ProfileC19 = &Profile{
-	ID: "C19", Name: "determinism", MinBlocks: 10, MaxBlocks: 45, MaxTxs: 6, Spec: withBurner(specDefault), Weights: withWeights(allWeights(), map[string]int{"bank.send_to_burn": 6}),
+	MultiMsg: true,
+	ID:       "C19", Name: "determinism", MinBlocks: 10, MaxBlocks: 45, MaxTxs: 6, Spec: withBurner(specDefault), Weights: withWeights(allWeights(), map[string]int{"bank.send_to_burn": 6}),
 	ExtraOps: c04ExtraOps, // swap batches with several requests per block
 	Rule:     "history with >=20 blocks, >=1 gap >= 1 day (epoch boundary), >=2 reward denoms credited and >=1 swap batch with >=2 accepted requests; replicas: fresh app, and app restarted from its DB at generated heights",
 	NonTrivial: func(h *History) bool {
@@ -93,7 +93,7 @@ func replayReplicaOn(a *History, restartAt map[int]bool, name, diskDir string) *
 		orig := a.W.Blocks[base+i]
 		// feed the very same tx bytes
 		for _, tx := range orig.Txs {
-			w.Pending = append(w.Pending, TxRecord{Signer: tx.Signer, MsgType: tx.MsgType, MsgJSON: tx.MsgJSON, Fee: tx.Fee, Bytes: tx.Bytes, Msg: tx.Msg})
+			w.Pending = append(w.Pending, TxRecord{Signer: tx.Signer, MsgType: tx.MsgType, MsgJSON: tx.MsgJSON, Fee: tx.Fee, Bytes: tx.Bytes, Msg: tx.Msg, JoinPrev: tx.JoinPrev})
 		}
 		blk := w.EndBlock(time.Duration(tb.GapNs))
 		if w.BlockErr != nil {
@@ -193,15 +193,14 @@ func replayAndCompareRecorded(p *Profile, tr *Trace) *Violation {
 		return &Violation{Sig: "C19/replica-setup", Detail: err.Error()}
 	}
 	for i, b := range tr.Blocks {
-		var kinds []string
-		for _, tx := range b.Txs {
-			var msg sdk.Msg
-			if err := h.W.App.AppCodec().UnmarshalInterfaceJSON(tx.Msg, &msg); err != nil {
+		for _, e := range b.Env {
+			if err := ApplyEnv(h.W, e); err != nil {
 				return &Violation{Sig: "C19/replica-setup", Detail: err.Error()}
 			}
-			fee, _ := sdk.ParseCoinsNormalized(tx.Fee)
-			h.W.SubmitFee(h.W.accountByName(tx.Signer), fee, msg)
-			kinds = append(kinds, tx.Kind)
+		}
+		kinds, err := h.submitTraceTxs(b)
+		if err != nil {
+			return &Violation{Sig: "C19/replica-setup", Detail: err.Error()}
 		}
 		h.step(time.Duration(b.GapNs), b.Env, kinds)
 		if h.W.BlockErr != nil {
